@@ -59,13 +59,17 @@ type Opts struct {
 	Latency uint16
 	WithTun func(i int) bool // give node i a tun stand-in (traffic handling on)
 	Extra   int              // additional, unconnected nodes appended after the n mesh nodes
+	IDs     []*m.Address     // identities of the nodes (default: the pooled identities of one continent)
 }
 
 // New builds a mesh of n nodes with the given edges.
 func New(n int, edges []Edge, o Opts) (*Mesh, error) {
 	world.InstallLogCapture()
 	ms := &Mesh{W: world.NewWorld(), Edges: edges, idOf: map[netip.Addr]int{}}
-	ids := Identities(n + o.Extra)
+	ids := o.IDs
+	if len(ids) < n+o.Extra {
+		ids = Identities(n + o.Extra)
+	}
 	for i := 0; i < n+o.Extra; i++ {
 		var cfg config.Store
 		if o.Cfg != nil {
